@@ -40,6 +40,13 @@ add('C07', 'exploration',
     'Random select lists over every item kind x header modes x join x DISTINCT [COUNT]/TOP/GROUP BY, plus EXCEPT and UPDATE, observed through query_table, query_csv (first output line) and query_pandas_dataframe; width predicate and reference naming function on the structured query.',
     TRUST, 'property-based testing (Hypothesis): validity predicate (width) + reference naming rule', 'DESIGN.md §2 C07')
 
+add('C11', 'exploration',
+    'Every line up to length 7 (quick) / 9 (thorough) over the class alphabet {quote, delimiter, space, other} (plus the first delimiter character for multi-character delimiters) is split by csv_utils.smart_split (both preserve modes) and by CSVRecordIterator and compared with a hand-written character-level reference splitter; the class abstraction is itself tested by random relabelling; long random Unicode lines for all five policies. Exhaustive only for the enumerated bounded domain.',
+    TRUST, 'exhaustive enumeration of a bounded domain + property-based testing (Hypothesis), differential against a reference splitter', 'DESIGN.md §2 C11')
+add('C12', 'exploration',
+    'Every text of length <= 5 (quick) / <= 7 (thorough) over {a, ", comma, LF, CR, #, space} is delivered through a harness stream in every partition and chunk size, for every policy x comment prefix x header flag; every delivery must equal the whole-string delivery, which must equal an independent reference line-breaker + splitter. Byte-level partitions of multi-byte UTF-8 / latin-1 samples through TextIOWrapper; random long texts with random cuts. Exhaustive only for the enumerated bounded domain.',
+    TRUST, 'exhaustive schedule enumeration (all partitions / chunk sizes) + property-based testing, schedule-invariance + reference reader', 'DESIGN.md §2 C12')
+
 NOT_APPLICABLE = []
 ALL = ['C%02d' % i for i in range(1, 21)]
 PENDING_REASON = 'check not built yet in this revision of /verif (planned, see DESIGN.md); not claimed until it exists and is quiet on the unchanged tree'
